@@ -1187,8 +1187,28 @@ func (f *FnVC) typeTag(t types.Type) string {
 		}
 		f.tagList = append(f.tagList, c)
 		f.fact("(> " + c + " 0)")
+		if f.tagTypes == nil {
+			f.tagTypes = map[string]types.Type{}
+		}
+		f.tagTypes[c] = t
+		// what Go's type system says about this concrete type and the interfaces asserted so far
+		for _, fn := range sortedKeys(f.ifaceAsserts) {
+			f.implFact(fn, f.ifaceAsserts[fn], c, t)
+		}
 	}
 	return f.sym(name)
+}
+
+// implFact: implements_I(tag(T)) is decided by the type checker for a concrete type T.
+func (f *FnVC) implFact(fn string, it *types.Interface, tag string, t types.Type) {
+	if _, isIface := t.Underlying().(*types.Interface); isIface {
+		return
+	}
+	if types.Implements(t, it) {
+		f.fact(sApp(fn, tag))
+	} else {
+		f.fact(sNot(sApp(fn, tag)))
+	}
 }
 
 func (f *FnVC) boxFun(t types.Type) (box, unbox string) {
@@ -1217,6 +1237,16 @@ func (f *FnVC) typeAssert(x *ssa.TypeAssert) {
 		// interface-to-interface: succeeds iff non-nil and dynamic type implements; abstract
 		okc := f.freshConst("implok", "Bool")
 		impl := f.declFun("implements_"+sanitize(typeKey(at)), []string{"Int"}, "Bool")
+		if f.ifaceAsserts == nil {
+			f.ifaceAsserts = map[string]*types.Interface{}
+		}
+		if _, seen := f.ifaceAsserts[impl]; !seen {
+			it := at.Underlying().(*types.Interface)
+			f.ifaceAsserts[impl] = it
+			for _, tag := range sortedKeys(f.tagTypes) {
+				f.implFact(impl, it, tag, f.tagTypes[tag])
+			}
+		}
 		f.fact(sEq(okc, sAnd("(not (= "+a.T+" 0))", sApp(impl, sApp("typeof", a.T)))))
 		if x.CommaOk {
 			v := f.tv(f.freshConst("ta", "Int"), at)
@@ -1522,7 +1552,7 @@ func (f *FnVC) ret(x *ssa.Return) {
 		if id, ok := e.E.(SIdent); ok && id.Name == "nopanic" {
 			continue
 		}
-		if e.Prop != "" && f.g.curProp != "" && e.Prop != f.g.curProp {
+		if e.Prop != "" && f.g.curProp != "" && !propListed(e.Prop, f.g.curProp) {
 			continue // clause belongs to another property's check
 		}
 		if e.Tag == "assumed" {
